@@ -13,7 +13,9 @@ import itertools
 import json
 import math
 import os
+import signal
 import sys
+import traceback
 from datetime import datetime, timedelta, timezone
 from fractions import Fraction as F
 
@@ -32,6 +34,24 @@ from geostructures import geohash as GH                           # noqa: E402
 
 CFG = GH._NIEMEYER_CONFIG
 T0 = datetime(2021, 3, 4, 5, 6, 7, tzinfo=timezone.utc)
+
+
+class CallTimeout(Exception):
+    pass
+
+
+def timed(fn, secs=60):
+    """run an implementation call under an alarm, so that a flood fill that no longer terminates
+    becomes an answer ('Err', OtherError via guarded) instead of a hung check"""
+    def handler(signum, frame):
+        raise CallTimeout(f'no answer within {secs}s')
+    old = signal.signal(signal.SIGALRM, handler)
+    signal.alarm(secs)
+    try:
+        return fn()
+    finally:
+        signal.alarm(0)
+        signal.signal(signal.SIGALRM, old)
 
 
 # ------------------------------------------------------------------ literals
@@ -190,11 +210,27 @@ def main():
     def flag(i, clause, detail):
         flagged.setdefault(i, []).append([clause, detail])
 
+    def total(kind):
+        """make a case builder total: an answer of an unexpected shape/type or an unexpected exception
+        becomes a case that can only mismatch (KBad) carrying the arguments -- never a harness crash"""
+        def deco(fn):
+            def wrapped(*a, **kw):
+                try:
+                    return fn(*a, **kw)
+                except Exception as ex:   # noqa
+                    i = add('KBad', {'k': kind, 'args': [json.loads(json.dumps(x, default=repr)) for x in a],
+                                     'harness_exception': traceback.format_exc()[-1500:]})
+                    flag(i, 'malformed-answer', f'{kind}: the implementation\'s answer could not be encoded/evaluated ({ex!r})')
+                    return None
+            return wrapped
+        return deco
+
     # ---------------------------------------------------------------- flood fill of single shapes
+    @total('flood')
     def flood_case(d, base, L, source, check_contained=False):
         s = build(d)
         hasher = GH.NiemeyerHasher(L, base)
-        r = guarded(lambda: sorted(hasher.hash_shape(s)))
+        r = guarded(lambda: timed(lambda: sorted(hasher.hash_shape(s))))
         if r[0] != 'Ok':
             i = add(f'KFlood {base} {L} {fq(0)} {fq(0)} [] []', {'k': 'flood', 'shape': d, 'base': base, 'len': L, 'out': list(r)})
             flag(i, 'hash_shape', f'raised {r[1]}')
@@ -251,6 +287,14 @@ def main():
         ({'kind': 'line', 'pts': [(-75.3, 40.2), (-60.8, 45.9), (-58.1, 33.3)]}, 64, 2),
         ({'kind': 'poly', 'pts': [(5.05, 5.02), (5.95, 5.11), (6.07, 6.03), (5.01, 5.93), (5.05, 5.02)]}, 64, 3),
         ({'kind': 'circle', 'c': (-120.2, -44.4), 'r': 90_000}, 16, 5),
+        # shapes inside a single cell (no neighbour touches: the result is the untested start cell alone)
+        ({'kind': 'poly', 'pts': [(x0 + 0.3, y0 + 0.3), (x0 + 0.9, y0 + 0.35), (x0 + 0.6, y0 + 1.0), (x0 + 0.3, y0 + 0.3)]}, 32, 3),
+        ({'kind': 'line', 'pts': [(x0 + 0.2, y0 + 0.2), (x0 + 1.1, y0 + 0.8)]}, 32, 3),
+        ({'kind': 'box', 'nw': (x0 + 0.2, y0 + 1.2), 'se': (x0 + 1.2, y0 + 0.2)}, 32, 3),
+        ({'kind': 'circle', 'c': (20.0, 20.0), 'r': 1000}, 16, 3),
+        # two cells only
+        ({'kind': 'line', 'pts': [(x0 + 0.2, y0 + 0.2), (x0 + w32 + 0.4, y0 + 0.8)]}, 32, 3),
+        ({'kind': 'poly', 'pts': [(x0 + 0.9, y0 + 0.3), (x0 + w32 + 0.5, y0 + 0.35), (x0 + 1.2, y0 + 1.0), (x0 + 0.9, y0 + 0.3)]}, 32, 3),
     ]
     for d, base, L in fixed:
         flood_case(d, base, L, 'fixed', check_contained=True)
@@ -267,11 +311,12 @@ def main():
         flood_case(d, base, L, 'random')
 
     # ---------------------------------------------------------------- points and multi-shapes
+    @total('multi')
     def multi_case(d, base, L):
         s = build(d)
         hasher = GH.NiemeyerHasher(L, base)
-        r = guarded(lambda: sorted(hasher.hash_shape(s)))
-        mem = [guarded(lambda m=m: sorted(hasher.hash_shape(m))) for m in s.geoshapes]
+        r = guarded(lambda: timed(lambda: sorted(hasher.hash_shape(s))))
+        mem = [guarded(lambda m=m: timed(lambda: sorted(hasher.hash_shape(m)))) for m in s.geoshapes]
         if r[0] != 'Ok' or any(x[0] != 'Ok' for x in mem):
             i = add('KMulti [] []', {'k': 'multi', 'shape': d, 'base': base, 'len': L, 'out': list(r)})
             flag(i, 'hash_shape', 'raised on a multi-shape or one of its members')
@@ -282,6 +327,17 @@ def main():
         nontrivial.add((base, L, json.dumps(d, sort_keys=True)))
         if set(r[1]) != set().union(*[set(x[1]) for x in mem]):
             flag(i, 'multi-union', 'the multi-shape does not hash to the union of its members\' cells')
+
+    @total('point')
+    def point_case(m, base, L):
+        p = build(m)
+        got = timed(lambda: sorted(GH.NiemeyerHasher(L, base).hash_shape(p)))
+        c = p.centroid
+        i = add(f'KPoint {base} {L} {fq(c.longitude)} {fq(c.latitude)} {setlit(got)}',
+                {'k': 'point', 'shape': m, 'base': base, 'len': L, 'out': got})
+        lon, lat, ex, ey = GH._decode_niemeyer(got[0], base) if got else (0, 0, -1, -1)
+        if len(got) != 1 or not (abs(c.longitude - lon) <= ex and abs(c.latitude - lat) <= ey):
+            flag(i, 'point-cell', f'a point must hash to the one cell containing it, got {got}')
 
     n_multi = 60 if thorough else 9
     for n in range(n_multi):
@@ -305,14 +361,7 @@ def main():
         # each point member also as a single point (cell through the C11 model)
         if mk == 'multipoint':
             for m in members:
-                p = build(m)
-                got = sorted(GH.NiemeyerHasher(L, base).hash_shape(p))
-                c = p.centroid
-                i = add(f'KPoint {base} {L} {fq(c.longitude)} {fq(c.latitude)} {setlit(got)}',
-                        {'k': 'point', 'shape': m, 'base': base, 'len': L, 'out': got})
-                lon, lat, ex, ey = GH._decode_niemeyer(got[0], base) if got else (0, 0, -1, -1)
-                if len(got) != 1 or not (abs(c.longitude - lon) <= ex and abs(c.latitude - lat) <= ey):
-                    flag(i, 'point-cell', f'a point must hash to the one cell containing it, got {got}')
+                point_case(m, base, L)
 
     # ---------------------------------------------------------------- collections
     AGGS = [('AggLen', None), ('AggTotalTime', agg_functions.total_time), ('AggUnique', agg_functions.unique_entities),
@@ -321,8 +370,8 @@ def main():
     def aggv(name, v):
         return f'(VL {listlit([zlit(x) + "%Z" for x in v])})' if name == 'AggIds' else f'(VZ {zlit(int(v))})'
 
-    n_coll = 40 if thorough else 6
-    for n in range(n_coll):
+    @total('collection')
+    def collection_case(n):
         base = [16, 32, 64][n % 3]
         L = rng.choice(LENGTHS[base][:2])
         w, h = cell_dims(base, L)
@@ -349,13 +398,13 @@ def main():
         coll = Track(shapes) if (n % 4 == 3) else FeatureCollection(shapes)
         hasher = GH.NiemeyerHasher(L, base)
         order = list(coll.geoshapes)
-        own = [sorted(hasher.hash_shape(s)) for s in order]
+        own = [timed(lambda s=s: sorted(hasher.hash_shape(s))) for s in order]
         items = listlit([
             f'(mkitem {s.properties["id"]} {int(s.dt.elapsed.total_seconds()) if s.dt else 0} '
             f'{"(Some " + str(s.properties["entity"]) + "%Z)" if "entity" in s.properties else "None"} {setlit(ks)})'
             for s, ks in zip(order, own)])
         for name, fn in AGGS:
-            r = guarded(lambda: hasher.hash_collection(coll, agg_fn=fn) if fn else hasher.hash_collection(coll))
+            r = guarded(lambda: timed(lambda: hasher.hash_collection(coll, agg_fn=fn) if fn else hasher.hash_collection(coll)))
             m = {'k': 'collection', 'agg': name, 'shapes': descs, 'track': isinstance(coll, Track), 'base': base, 'len': L,
                  'out': r[1] if r[0] == 'Ok' else list(r)}
             if r[0] != 'Ok':
@@ -377,9 +426,13 @@ def main():
                     flag(i, 'collection-value', f'cell {c!r}: {out[c]!r}, expected {exp!r}')
                     break
 
+    n_coll = 40 if thorough else 6
+    for n in range(n_coll):
+        collection_case(n)
+
     # ---------------------------------------------------------------- hash_coordinates
-    n_hc = 60 if thorough else 8
-    for n in range(n_hc):
+    @total('coords')
+    def coords_case(n):
         base = [16, 32, 64][n % 3]
         L = rng.randint(1, 8)
         w, h = cell_dims(base, L)
@@ -393,7 +446,7 @@ def main():
         if r1[0] != 'Ok' or r2[0] != 'Ok':
             i = add(f'KCoords {base} {L} [] [] []', m)
             flag(i, 'hash_coordinates', 'raised')
-            continue
+            return
         lit = (f'KCoords {base} {L} {listlit([f"({fq(p.longitude)}, {fq(p.latitude)})" for p in pts])} '
                f'{listlit([f"({slit(k)}, {zlit(v)}%Z)" for k, v in r1[1].items()])} '
                + listlit([f'({slit(k)}, {listlit(["(" + fq(a) + ", " + fq(b) + ")" for a, b in v])})' for k, v in r2[1].items()]))
@@ -406,22 +459,29 @@ def main():
                 flag(i, 'coordinates-value', f'cell {c!r}: count {r1[1].get(c)}, expected {enc.count(c)}')
                 break
 
+    n_hc = 60 if thorough else 8
+    for n in range(n_hc):
+        coords_case(n)
+
     # ---------------------------------------------------------------- _get_surrounding (fixed, exhaustive small depth)
+    @total('surround')
+    def surround_case(g, base):
+        lon, lat, ex, ey = GH._decode_niemeyer(g, base)
+        if not (-90 <= lat - ey and lat + ey <= 90):
+            return
+        r = guarded(lambda: GH.NiemeyerHasher._get_surrounding(g, base))
+        if r[0] != 'Ok':
+            i = add(f'KSurround {base} {slit(g)} []', {'k': 'surround', 'base': base, 'hash': g, 'out': list(r)})
+            flag(i, 'get_surrounding', f'raised {r[1]}')
+            return
+        add(f'KSurround {base} {slit(g)} {setlit(r[1])}', {'k': 'surround', 'base': base, 'hash': g, 'out': r[1]})
+        ck.count('surround')
+
     sur_depth = {16: 2, 32: 2, 64: 2} if thorough else {16: 2, 32: 2, 64: 1}
     for base in (16, 32, 64):
         for L in range(1, sur_depth[base] + 1):
             for tup in itertools.product(CFG[base]['charset'], repeat=L):
-                g = ''.join(tup)
-                lon, lat, ex, ey = GH._decode_niemeyer(g, base)
-                if not (-90 <= lat - ey and lat + ey <= 90):
-                    continue
-                r = guarded(lambda: GH.NiemeyerHasher._get_surrounding(g, base))
-                if r[0] != 'Ok':
-                    i = add(f'KSurround {base} {slit(g)} []', {'k': 'surround', 'base': base, 'hash': g, 'out': list(r)})
-                    flag(i, 'get_surrounding', f'raised {r[1]}')
-                    continue
-                add(f'KSurround {base} {slit(g)} {setlit(r[1])}', {'k': 'surround', 'base': base, 'hash': g, 'out': r[1]})
-                ck.count('surround')
+                surround_case(''.join(tup), base)
 
     ck.cov['evaluations'] = len(cases)
     ck.cov['distinct_nontrivial'] = len(nontrivial)
@@ -435,7 +495,12 @@ def main():
             print('DEBUG bad', i, json.dumps(meta[i])[:500])
 
     # ---------------------------------------------------------------- H3 (fixed corpus, no theorem)
-    h3_obs = h3_corpus(ck)
+    try:
+        h3_obs = h3_corpus(ck)
+    except Exception as ex:   # noqa
+        h3_obs = {'failures': 1, 'exception': repr(ex)}
+        ck.violation({'kind': 'property-fails-on-implementation', 'clause': 'H3 (fixed corpus; no theorem covers it)',
+                      'case': {'h3': 'exception', 'traceback': traceback.format_exc()[-1500:]}})
 
     allbad = sorted(set(bad) | set(flagged))
     allbad.sort(key=lambda i: (i not in flagged, i))
@@ -451,19 +516,22 @@ def main():
     # D12: deterministic replay of the known finding (fixed input)
     for f in ck.findings:
         if f.get('status') == 'open' and f.get('signature') == 'shape_in_east_column':
-            rp = f['replay']
-            s = GeoBox(Coordinate(*rp['nw']), Coordinate(*rp['se']))
-            got = GH.NiemeyerHasher(rp['length'], rp['base']).hash_shape(s)
-            miss = []
-            for c in rp.get('expected_missing', []):
-                lon, lat, ex, ey = GH._decode_niemeyer(c, rp['base'])
-                overlaps = (lon - ex < rp['se'][0] and rp['nw'][0] < lon + ex and lat - ey < rp['nw'][1] and rp['se'][1] < lat + ey)
-                if overlaps and c not in got and lon + ex == 180:
-                    miss.append(c)
-            if miss:
-                ck.known(f)
+            try:
+                rp = f['replay']
+                s = GeoBox(Coordinate(*rp['nw']), Coordinate(*rp['se']))
+                got = GH.NiemeyerHasher(rp['length'], rp['base']).hash_shape(s)
+                miss = []
+                for c in rp.get('expected_missing', []):
+                    lon, lat, ex, ey = GH._decode_niemeyer(c, rp['base'])
+                    overlaps = (lon - ex < rp['se'][0] and rp['nw'][0] < lon + ex and lat - ey < rp['nw'][1] and rp['se'][1] < lat + ey)
+                    if overlaps and c not in got and lon + ex == 180:
+                        miss.append(c)
+                if miss:
+                    ck.known(f)
+            except Exception:   # noqa
+                pass
 
-    ck.finish(rule='fixed corpus of 14 shapes (vertices on cell corners/edges, holes owning cells, diagonal lines) + seeded random '
+    ck.finish(rule='fixed corpus of 20 shapes (single-cell and two-cell shapes, vertices on cell corners/edges, holes owning cells, diagonal lines) + seeded random '
                    'single shapes (star polygons, polygons with a hole, polylines, boxes, circles) sized 1.3-17 cells across in bases '
                    '16/32/64, away from lon 180 and the poles; for each, the per-cell test is evaluated by the implementation on every '
                    'cell of the vertex bounds enlarged by 2 cells and the returned set is compared with the model flood and with the '
